@@ -500,3 +500,453 @@ def u_future(ip: Interp, th: FutTheory, std: StdRepo):
                    z3.And(rs == F_FINISHED, r["_exception"].t == NONE, v.t == r["_result"].t if isinstance(v, RefV) else z3.BoolVal(False)), P)
     cls_node = std.classes["Future"].node
     ip.require(th.initial(), "anchor:__iter__-is-__await__", z3.BoolVal(any(isinstance(n, ast.Assign) and ast.unparse(n) == "__iter__ = __await__" for n in cls_node.body)), P)
+
+
+# ======================================================================================================
+# asyncio.tasks.Task  (reference implementation `_PyTask`)  -  the Task contract T1-T5 of DESIGN 3.6
+#   The Future part of a task is reached through `self.done()` / `super().cancel()` / `super().set_result()` /
+#   `super().set_exception()`: at those call sites the contracts proved by the unit above are applied.
+#   The coroutine is opaque: `coro.send(None)` / `coro.throw(exc)` run user code, which may call `task.cancel()` /
+#   `uncancel()` on this very task (so `_must_cancel`, the request counter and the message are havocked) and ends in one of:
+#   StopIteration(value) | CancelledError | KeyboardInterrupt/SystemExit | another exception | a yielded object.
+#   Language semantics assumed: `throw(exc)` into a coroutine that has not started raises exactly `exc` and executes
+#   no statement of the coroutine (this is T3, the root of finding F1).
+# ======================================================================================================
+TASK_PROPS = ("C02", "C03", "C06", "C07", "C08", "C12", "C14")
+BLK_ABSENT, BLK_TRUE, BLK_FALSE = 0, 1, 2
+TRUSTED_TASK = TRUSTED_FUT + [
+    "coroutine objects: send(None)/throw(exc) resume the coroutine once and end in StopIteration(value), an exception, or a yielded object; throw(exc) into a coroutine that has not started raises exc itself without executing any of its statements",
+    "user code running inside the coroutine touches the task only through cancel()/uncancel()/cancelling() (it cannot complete the task's own future: Task.set_result/set_exception raise RuntimeError)",
+    "the event loop runs every handle it was given by call_soon exactly once; loop debug mode is off (no _source_traceback)",
+    "Future contract of the awaited object as proved by unit asyncio.futures.Future (cancel() returns True exactly for a pending future and cancels it; a done-callback runs once after the future is done; result() raises/returns its outcome)",
+]
+
+
+class TaskTheory(FutTheory):
+    THE_LOOP = z3.Const("the_loop", Ref)
+
+    def initial(self) -> St:
+        st = St()
+        st.me = fresh("me", Ref)
+        st.assume(z3.And(st.me != NONE, self.THE_LOOP != NONE))
+        st.sh = {"_state": IntV(fresh("state", I)), "_must_cancel": BoolV(fresh("must_cancel", B)), "_fut_waiter": RefV(fresh("fut_waiter", Ref)), "_coro": RefV(fresh("coro", Ref)),
+                 "_context": RefV(fresh("context", Ref)), "_loop": RefV(self.THE_LOOP), "_num_cancels_requested": IntV(fresh("ncancel", I)), "_cancel_message": RefV(fresh("cmsg", Ref)),
+                 "_cancelled_exc": RefV(fresh("cexc", Ref)), "_log_traceback": BoolV(fresh("logtb", B)), "_name": StrV(fresh("name", sym.S)), "_log_destroy_pending": BoolV(True),
+                 "_source_traceback": NoneV(), "$result": RefV(fresh("own_result", Ref)), "$exception": RefV(fresh("own_exception", Ref)),
+                 "$fstate": ArrV(fresh("fstate", z3.ArraySort(Ref, I))), "$blk": ArrV(fresh("blk", z3.ArraySort(Ref, I))), "$started": BoolV(fresh("started", B))}
+        x = z3.Const("x!ts", Ref)
+        st.assume(z3.ForAll([x], z3.And(z3.Select(st.sh["$fstate"].t, x) >= 0, z3.Select(st.sh["$fstate"].t, x) <= 2, z3.Select(st.sh["$blk"].t, x) >= 0, z3.Select(st.sh["$blk"].t, x) <= 2)))
+        st.assume(z3.And(st.sh["_state"].t >= 0, st.sh["_state"].t <= 2, st.sh["_num_cancels_requested"].t >= 0, st.sh["_coro"].t != NONE))
+        st.assume(z3.Select(st.sh["$blk"].t, NONE) == BLK_ABSENT)
+        return st
+
+    def may_set_field(self, st, fr, obj, attr) -> bool:
+        return attr in st.sh and not attr.startswith("$") and attr != "_state"
+
+    def coerce_field(self, st, attr, old, new):
+        if isinstance(old, NoneV) and isinstance(new, NoneV):
+            return new
+        return super().coerce_field(st, attr, old, new)
+
+    def self_attr(self, st, fr, v, attr):
+        if attr in ("done", "cancelled", "_make_cancelled_error"):
+            return [(st, BuiltinV("self." + attr))]
+        return super().self_attr(st, fr, v, attr)
+
+    def value_attr(self, st, fr, v, attr):
+        if isinstance(v, ExcV) and attr == "value" and v.cls == "StopIteration":
+            return [(st, v.args[0] if v.args else NoneV())]
+        return super().value_attr(st, fr, v, attr)
+
+    def setattr(self, st, fr, obj, attr, v):
+        if isinstance(obj, RefV) and attr == "_asyncio_future_blocking":
+            v = self.ip.deref(st, v)
+            if isinstance(v, BoolV):
+                st.sh["$blk"] = ArrV(z3.Store(st.sh["$blk"].t, obj.t, z3.If(v.t, BLK_TRUE, BLK_FALSE)))
+                st.trace.append(("set_blocking", obj.t, v.t))
+                return [(st, NORMAL)]
+        return super().setattr(st, fr, obj, attr, v)
+
+    # ---- the Future part of this task: contracts proved by unit asyncio.futures.Future -------------------------
+    def _super_transition(self, st, name, new_state, store=None):
+        ip = self.ip
+        s0 = st.sh["_state"].t
+        if name == "cancel":
+            ret = s0 == F_PENDING
+            st.trace.append(("super.cancel", ret))
+            st.sh["_state"] = IntV(z3.If(ret, z3.IntVal(F_CANCELLED), s0))
+            return [(st, BoolV(ret))]
+        out = []
+        for s, pend in ip.branch(st, s0 == F_PENDING, "own-future-pending"):
+            if not pend:
+                out.append((s, Exit(Exit.RAISE, ExcV("InvalidStateError", []))))
+                continue
+            s.trace.append(("super." + name, store))
+            s.sh["_state"] = IntV(F_FINISHED)
+            if name == "set_result":
+                s.sh["$result"] = store if isinstance(store, RefV) else RefV(NONE)
+            else:
+                s.sh["$exception"] = RefV(store.ref) if isinstance(store, ExcV) and store.ref is not None else RefV(fresh("stored_exc", Ref))
+            out.append((s, NoneV()))
+        return out
+
+    def resume_outcomes(self, st, kind, exc):
+        """coro.send(None) / coro.throw(exc)"""
+        ip = self.ip
+        started = st.sh["$started"].t
+        st.trace.append(("resume", kind, exc, st.sh["_must_cancel"].t, st.sh["_fut_waiter"].t, st.sh["_state"].t, len([e for e in st.trace if e[0] == "enter"]) - len([e for e in st.trace if e[0] == "leave"])))
+        out = []
+        if kind == "throw":
+            # not started: the exception comes straight back, no statement of the coroutine runs
+            s = st.fork()
+            s.assume(z3.Not(started))
+            if ip.feasible(s):
+                s.tags.append("coro:not-started:throw-comes-straight-back")
+                s.trace.append(("body-ran", False))
+                out.append((s, Exit(Exit.RAISE, exc)))
+            st = st.fork()
+            st.assume(started)
+            if not ip.feasible(st):
+                return out
+        # user code runs: it may request / withdraw cancellations of this very task
+        st.sh["$started"] = BoolV(True)
+        st.trace.append(("body-ran", True))
+        st.sh["_must_cancel"] = BoolV(fresh("must_cancel_after_user_code", B))
+        st.sh["_num_cancels_requested"] = IntV(fresh("ncancel_after_user_code", I))
+        st.sh["_cancel_message"] = RefV(fresh("cmsg_after_user_code", Ref))
+        for tag, mk in (("StopIteration", lambda s: ExcV("StopIteration", [RefV(fresh("return_value", Ref))])),
+                        ("CancelledError", lambda s: ExcV("CancelledError", [], ref=self.new_cancellation(s).t)),
+                        ("KeyboardInterrupt", lambda s: ExcV("KeyboardInterrupt", [], ref=fresh("kbd", Ref))),
+                        ("SystemExit", lambda s: ExcV("SystemExit", [], ref=fresh("sysexit", Ref))),
+                        ("UserExc", lambda s: ExcV("UserExc", [], ref=fresh("user_exc", Ref))),
+                        ("OtherBaseExc", lambda s: ExcV("OtherBaseExc", [], ref=fresh("base_exc", Ref)))):
+            s = st.fork()
+            s.tags.append("coro:raises:" + tag)
+            out.append((s, Exit(Exit.RAISE, mk(s))))
+        s = st.fork()
+        s.tags.append("coro:yields")
+        r = fresh("yielded", Ref)
+        out.append((s, RefV(r)))
+        return out
+
+    def call_builtin(self, st, fr, f, pos, kws, rest_kw, node):
+        ip = self.ip
+        if f.recv is not None:
+            return self.call_method(st, fr, f.recv, f.name, pos, kws, node)
+        n = f.name
+        if n == "self.done":
+            return [(st, BoolV(st.sh["_state"].t != F_PENDING))]
+        if n == "self.cancelled":
+            return [(st, BoolV(st.sh["_state"].t == F_CANCELLED))]
+        if n == "self._make_cancelled_error":
+            # Future._make_cancelled_error: the saved cancellation if there is one, else a new one
+            c = self.new_cancellation(st)
+            st.sh["_cancelled_exc"] = RefV(NONE)
+            return [(st, ExcV("CancelledError", [], ref=c.t))]
+        if n == "super":
+            return [(st, BuiltinV("<super>"))]
+        if n == "<super>.cancel":
+            return self._super_transition(st, "cancel", F_CANCELLED)
+        if n == "<super>.set_result":
+            return self._super_transition(st, "set_result", F_FINISHED, ip.deref(st, pos[0]))
+        if n == "<super>.set_exception":
+            return self._super_transition(st, "set_exception", F_FINISHED, ip.deref(st, pos[0]))
+        if n == "<super>.__init__":
+            st.trace.append(("super.__init__", kws.get("loop")))
+            st.sh["_state"] = IntV(F_PENDING)
+            return [(st, NoneV())]
+        if n == "isinstance":
+            obj, cls = ip.deref(st, pos[0]), pos[1]
+            cname = cls.name.split(".")[-1] if isinstance(cls, BuiltinV) else (cls.name if isinstance(cls, ClassV) else None)
+            if cname is not None and isinstance(obj, ExcV):
+                return [(st, BoolV(ip.repo.is_subclass_exc(obj.cls, cname)))]
+            if cname is not None and isinstance(obj, NoneV):
+                return [(st, BoolV(False))]
+        if n == "getattr" and len(pos) == 3 and isinstance(pos[1], StrV) and pos[1].lit == "_asyncio_future_blocking" and isinstance(pos[2], NoneV):
+            obj = ip.deref(st, pos[0])
+            if isinstance(obj, RefV):
+                b = z3.Select(st.sh["$blk"].t, obj.t)
+                out = []
+                for tag, cond, val in (("blocking-attr:absent", b == BLK_ABSENT, NoneV()), ("blocking-attr:True", b == BLK_TRUE, BoolV(True)), ("blocking-attr:False", b == BLK_FALSE, BoolV(False))):
+                    s = st.fork()
+                    s.assume(cond)
+                    if ip.feasible(s):
+                        s.tags.append(tag)
+                        out.append((s, val))
+                return out
+        if n == "futures._get_loop":
+            obj = ip.deref(st, pos[0])
+            return [(st, RefV(z3.Select(z3.Const("loop_of", z3.ArraySort(Ref, Ref)), obj.t)))]
+        if n == "inspect.isgenerator":
+            obj = ip.deref(st, pos[0])
+            return [(st, BoolV(z3.Select(arr_b("is_generator"), obj.t)))]
+        if n == "coroutines.iscoroutine":
+            obj = ip.deref(st, pos[0])
+            return [(st, BoolV(z3.Select(arr_b("is_coroutine"), obj.t)))]
+        if n == "_task_name_counter":
+            return [(st, IntV(fresh("task_no", I)))]
+        if n == "str" and len(pos) == 1:
+            return self.ip.to_str(st, fr, pos[0])
+        if n == "contextvars.copy_context":
+            r = fresh("new_context", Ref)
+            st.assume(r != NONE)
+            return [(st, RefV(r))]
+        if n in ("exceptions.CancelledError", "exceptions.InvalidStateError", "events.get_event_loop"):
+            return super().call_builtin(st, fr, f, pos, kws, rest_kw, node)
+        raise Unsupported(f"builtin {n}()")
+
+    def call_method(self, st, fr, recv, name, pos, kws, node):
+        ip = self.ip
+        val = ip.deref(st, recv)
+        if isinstance(val, RefV):
+            if name in ("send", "throw") and z3.eq(val.t, st.sh["_coro"].t):
+                arg = ip.deref(st, pos[0])
+                return self.resume_outcomes(st, name, arg)
+            if name == "call_soon" and z3.eq(val.t, self.THE_LOOP):
+                fn = pos[0]
+                st.trace.append(("call_soon", fn.name if isinstance(fn, FuncV) else fn, [ip.deref(st, a) for a in pos[1:]], kws.get("context")))
+                return [(st, NoneV())]
+            if name == "is_running" and z3.eq(val.t, self.THE_LOOP):
+                return [(st, BoolV(fresh("loop_running", B)))]
+            if name == "add_done_callback":
+                fn = pos[0]
+                st.trace.append(("add_done_callback", val.t, fn.name if isinstance(fn, FuncV) else fn, kws.get("context")))
+                return [(st, NoneV())]
+            if name == "cancel":
+                # Future.cancel of the awaited future (contract of unit asyncio.futures.Future)
+                fs = st.sh["$fstate"].t
+                ret = z3.Select(fs, val.t) == F_PENDING
+                st.sh["$fstate"] = ArrV(z3.Store(fs, val.t, z3.If(ret, z3.IntVal(F_CANCELLED), z3.Select(fs, val.t))))
+                st.trace.append(("waiter.cancel", val.t, ret, kws.get("msg")))
+                return [(st, BoolV(ret))]
+            if name == "result":
+                fs = z3.Select(st.sh["$fstate"].t, val.t)
+                out = []
+                for tag, cond, mk in (("future:pending", fs == F_PENDING, lambda s: Exit(Exit.RAISE, ExcV("InvalidStateError", []))),
+                                      ("future:cancelled", fs == F_CANCELLED, lambda s: Exit(Exit.RAISE, ExcV("CancelledError", [], ref=self.new_cancellation(s).t))),
+                                      ("future:finished-with-exception", fs == F_FINISHED, lambda s: Exit(Exit.RAISE, ExcV("UserExc", [], ref=fresh("future_exception", Ref)))),
+                                      ("future:finished-with-result", fs == F_FINISHED, lambda s: RefV(fresh("future_result", Ref)))):
+                    s = st.fork()
+                    s.assume(cond)
+                    if ip.feasible(s):
+                        s.tags.append(tag)
+                        out.append((s, mk(s)))
+                return out
+        raise Unsupported(f"method .{name}() on {type(val).__name__}")
+
+
+def _events(s, kind):
+    return [e for e in s.trace if e[0] == kind]
+
+
+@fut_unit("asyncio.tasks.Task", TASK_PROPS, theory=lambda: TaskTheory(), mod="asyncio.tasks", short="tasks", cls="Task", trusted=TRUSTED_TASK)
+def u_task(ip: Interp, th: TaskTheory, std: StdRepo):
+    P = TASK_PROPS
+    Q = "tasks.Task."
+    SELF = SelfV("Task")
+    std.exc.update({"UserExc": "Exception", "OtherBaseExc": "BaseException", "KeyboardInterrupt": "BaseException", "SystemExit": "BaseException", "StopIteration": "Exception", "RuntimeError": "Exception", "TypeError": "Exception"})
+
+    def c_enter(ip_, s, fr, selfv, args):
+        s.trace.append(("enter",))
+        return [(s, NoneV())]
+
+    def c_leave(ip_, s, fr, selfv, args):
+        s.trace.append(("leave",))
+        return [(s, NoneV())]
+
+    def c_register(ip_, s, fr, selfv, args):
+        s.trace.append(("register",))
+        return [(s, NoneV())]
+
+    ip.contracts["tasks._enter_task"] = c_enter
+    ip.contracts["tasks._leave_task"] = c_leave
+    ip.contracts["tasks._register_task"] = c_register
+
+    def run(st, name, args):
+        fi = std.get(Q + name)
+        return ip.exec_function(st, fi, SELF, args)
+
+    def n_conts(s):
+        return len(_events(s, "call_soon")) + len(_events(s, "add_done_callback"))
+
+    # ================= __step (with __step_run_and_handle_result inlined) ==========================================
+    for exc_kind in ("none", "cancelled", "other"):
+        st = th.initial()
+        sh0 = dict(st.sh)
+        if exc_kind == "none":
+            exc_in = NoneV()
+        elif exc_kind == "cancelled":
+            exc_in = ExcV("CancelledError", [], ref=th.new_cancellation(st).t)
+        else:
+            exc_in = ExcV("UserExc", [], ref=fresh("exc_in", Ref))
+        T = f"__step[exc={exc_kind}]:"
+        done0 = sh0["_state"].t != F_PENDING
+        mc0 = sh0["_must_cancel"].t
+        for s, v in run(st, "__step", {"exc": exc_in}):
+            res = _events(s, "resume")
+            raised = v.val.cls if isinstance(v, Exit) and v.kind == Exit.RAISE else None
+            if not res:
+                ip.require(s, T + "the-coroutine-is-not-resumed-exactly-when-the-task-is-already-done(InvalidStateError,nothing-changed)",
+                           z3.And(done0, z3.BoolVal(raised == "InvalidStateError" and n_conts(s) == 0 and not _events(s, "enter")), s.sh["_state"].t == sh0["_state"].t, s.sh["_must_cancel"].t == mc0), P)
+                continue
+            ip.require(s, T + "the-coroutine-is-resumed-exactly-once-per-step,only-when-the-task-is-not-done", z3.And(z3.Not(done0), z3.BoolVal(len(res) == 1)), P)
+            _k, kind, thrown, mc_at_resume, waiter_at_resume, _st, depth = res[0]
+            ip.require(s, T + "at-the-resumption:_must_cancel-cleared,_fut_waiter-None,inside-exactly-one-_enter_task", z3.And(z3.Not(mc_at_resume), waiter_at_resume == NONE, z3.BoolVal(depth == 1)), P)
+            ip.require(s, T + "_enter_task/_leave_task-balanced-on-every-exit", z3.BoolVal(len(_events(s, "enter")) == 1 and len(_events(s, "leave")) == 1), P)
+            # T4 / T5: what is sent or thrown
+            is_new_canc = z3.BoolVal(kind == "throw" and isinstance(thrown, ExcV) and thrown.cls == "CancelledError")
+            if exc_kind == "none":
+                ip.require(s, T + "T4:a-requested-cancellation-is-delivered-as-CancelledError-at-this-resumption;T5:otherwise-a-plain-send(None)",
+                           z3.And(z3.Implies(mc0, is_new_canc), z3.Implies(z3.Not(mc0), z3.BoolVal(kind == "send" and isinstance(thrown, NoneV)))), P)
+            elif exc_kind == "cancelled":
+                ip.require(s, T + "a-cancellation-raised-by-the-awaited-future-is-thrown-in-as-that-very-object(with-or-without-a-pending-request)",
+                           z3.BoolVal(kind == "throw" and isinstance(thrown, ExcV) and thrown.ref is not None) if not (isinstance(thrown, ExcV) and thrown.ref is not None) else thrown.ref == exc_in.ref, P)
+            else:
+                ip.require(s, T + "T4:a-requested-cancellation-replaces-the-future's-exception-by-CancelledError;T5:otherwise-exactly-the-future's-exception-is-thrown-in",
+                           z3.And(z3.Implies(mc0, is_new_canc), z3.Implies(z3.Not(mc0), (thrown.ref == exc_in.ref) if isinstance(thrown, ExcV) and thrown.ref is not None and thrown.cls == "UserExc" else z3.BoolVal(False))), P)
+            body_ran = _events(s, "body-ran")[0][1]
+            if not body_ran:
+                ip.require(s, T + "T3:a-cancellation-thrown-into-a-coroutine-that-never-started-ends-the-task-cancelled-at-once(no-statement-of-it-runs)" if isinstance(thrown, ExcV) and thrown.cls == "CancelledError"
+                           else T + "an-exception-thrown-into-a-coroutine-that-never-started-becomes-the-task's-exception",
+                           z3.And(s.sh["_state"].t == (F_CANCELLED if isinstance(thrown, ExcV) and thrown.cls == "CancelledError" else F_FINISHED), z3.BoolVal(n_conts(s) == 0 and raised is None)), P)
+                continue
+            mc1 = [e for e in s.trace if e[0] == "resume"][0]  # noqa: F841
+            tag = [t for t in s.tags if t.startswith("coro:")][-1]
+            state1 = s.sh["_state"].t
+            sc, sr, se = _events(s, "super.cancel"), _events(s, "super.set_result"), _events(s, "super.set_exception")
+            wc = _events(s, "waiter.cancel")
+            if tag.startswith("coro:raises:"):
+                what = tag.split(":")[-1]
+                ip.require(s, T + f"{what}:the-task-is-done-afterwards-and-no-continuation-is-registered(never-resumed-again)", z3.And(state1 != F_PENDING, z3.BoolVal(n_conts(s) == 0 and not wc)), P)
+                if what == "StopIteration":
+                    # mc1: the value `_must_cancel` had when the coroutine returned (user code may have requested a cancellation)
+                    ip.require(s, T + "StopIteration:the-return-value-becomes-the-result,unless-a-cancellation-was-requested-during-this-very-step(then-cancelled,request-consumed)",
+                               z3.BoolVal((len(sr) == 1 and not sc and not se) or (len(sc) == 1 and not sr and not se)), P)
+                    if sr:
+                        ip.require(s, T + "StopIteration:result-is-exactly-the-returned-value", z3.And(state1 == F_FINISHED, s.sh["$result"].t == sr[0][1].t if isinstance(sr[0][1], RefV) else z3.BoolVal(False), z3.Not(s.sh["_must_cancel"].t)), P)
+                    else:
+                        ip.require(s, T + "StopIteration+requested-cancellation:cancelled,_must_cancel-cleared", z3.And(state1 == F_CANCELLED, z3.Not(s.sh["_must_cancel"].t)), P)
+                    ip.require(s, T + "StopIteration:not-raised-out-of-the-step", z3.BoolVal(raised is None), P)
+                elif what == "CancelledError":
+                    ip.require(s, T + "CancelledError:the-task-ends-cancelled(cancelled()-becomes-true);the-exception-is-kept-for-chaining;not-raised-out-of-the-step",
+                               z3.And(state1 == F_CANCELLED, z3.BoolVal(len(sc) == 1 and not sr and not se and raised is None), s.sh["_cancelled_exc"].t != NONE), P)
+                elif what in ("KeyboardInterrupt", "SystemExit"):
+                    ip.require(s, T + f"{what}:stored-as-the-task's-exception-and-re-raised-to-the-loop", z3.And(state1 == F_FINISHED, z3.BoolVal(len(se) == 1 and not sr and not sc and raised == what)), P)
+                else:
+                    ip.require(s, T + f"{what}:exactly-that-exception-becomes-the-task's-exception(C12:never-a-different-one);not-raised-out-of-the-step",
+                               z3.And(state1 == F_FINISHED, z3.BoolVal(len(se) == 1 and not sr and not sc and raised is None and isinstance(se[0][1], ExcV) and se[0][1].cls == what)), P)
+                continue
+            # ---- the coroutine yielded: the task stays pending with exactly one continuation ----
+            cs, adc = _events(s, "call_soon"), _events(s, "add_done_callback")
+            ip.require(s, T + "yield:the-task-stays-pending-with-exactly-one-continuation(never-lost,never-resumed-twice)", z3.And(state1 == F_PENDING, z3.BoolVal(n_conts(s) == 1 and raised is None and not sc and not sr and not se)), P)
+            yielded = [x for x in s.tags if x.startswith("blocking-attr:")]
+            fw = s.sh["_fut_waiter"].t
+            if adc:
+                r = adc[0][1]
+                blk0 = z3.Select(sh0["$blk"].t, r)
+                ip.require(s, T + "yield:wake-up-registered-exactly-on-a-blocking-future-of-this-loop-that-is-not-the-task-itself;it-is-the-__wakeup-of-this-task;_fut_waiter-is-that-future;blocking-flag-reset",
+                           z3.And(z3.BoolVal(adc[0][2] == "__wakeup" and "blocking-attr:True" in yielded), fw == r, r != s.me, z3.Select(z3.Const("loop_of", z3.ArraySort(Ref, Ref)), r) == th.THE_LOOP,
+                                  z3.Select(s.sh["$blk"].t, r) == BLK_FALSE), P)
+                mc_after_user = s.sh["_must_cancel"].t  # value at exit
+                ip.require(s, T + "yield:a-cancellation-requested-during-this-step-is-passed-to-the-new-waiter-at-once(at-most-one-cancel,only-on-the-waiter);the-request-stays-pending-exactly-when-the-waiter-refused",
+                           z3.BoolVal(len(wc) <= 1 and all(z3.eq(w[1], r) for w in wc)), P)
+                if wc:
+                    ip.require(s, T + "yield:_must_cancel-is-cleared-exactly-when-the-waiter-accepted-the-cancellation", mc_after_user == z3.Not(wc[0][2]), P)
+                else:
+                    ip.require(s, T + "yield:no-request-pending=>the-waiter-is-left-alone", z3.Not(mc_after_user), P)
+            else:
+                ip.require(s, T + "yield:otherwise-exactly-one-further-step-is-scheduled-on-this-loop(a-bare-yield-resumes-plainly,a-bad-yield-with-RuntimeError);no-waiter",
+                           z3.And(fw == NONE, z3.BoolVal(len(cs) == 1 and cs[0][1] == "__step" and not wc and (len(cs[0][2]) == 0 or (len(cs[0][2]) == 1 and isinstance(cs[0][2][0], ExcV) and cs[0][2][0].cls == "RuntimeError")))), P)
+                if cs and len(cs[0][2]) == 0:
+                    ip.require(s, T + "yield:a-plain-further-step-exactly-for-a-bare-yield(None)", z3.BoolVal("blocking-attr:absent" in yielded), P)
+
+    # ================= cancel() ======================================================================================
+    st = th.initial()
+    sh0 = dict(st.sh)
+    msg = RefV(fresh("msg", Ref))
+    done0 = sh0["_state"].t != F_PENDING
+    fw0 = sh0["_fut_waiter"].t
+    for s, v in run(st, "cancel", {"msg": msg}):
+        if isinstance(v, Exit):
+            ip.require(s, f"cancel:noraise:{v.val.cls}", z3.BoolVal(False), P)
+            continue
+        wc = _events(s, "waiter.cancel")
+        ret = v.t if isinstance(v, BoolV) else z3.BoolVal(False)
+        ip.require(s, "cancel:returns-False-exactly-for-a-done-task,and-then-changes-nothing(C06:a-finished-task-is-not-cancelled-again)",
+                   z3.And(ret == z3.Not(done0), z3.Implies(done0, z3.And(z3.BoolVal(not wc), s.sh["_must_cancel"].t == sh0["_must_cancel"].t, s.sh["_num_cancels_requested"].t == sh0["_num_cancels_requested"].t))), P)
+        ip.require(s, "cancel:never-completes-the-task-itself(the-task's-own-state-is-untouched;cancelled()-only-after-the-coroutine-ended)", z3.And(s.sh["_state"].t == sh0["_state"].t, z3.BoolVal(not _events(s, "super.cancel"))), P)
+        ip.require(s, "cancel:T2:a-live-task-gets-one-more-request,and-the-cancellation-will-be-delivered:the-pending-future-it-waits-on-is-cancelled(its-callbacks-wake-the-task-with-CancelledError),else-_must_cancel-is-set(the-next-step-throws)",
+                   z3.Implies(z3.Not(done0), z3.And(s.sh["_num_cancels_requested"].t == sh0["_num_cancels_requested"].t + 1,
+                                                    z3.Or(z3.And(fw0 != NONE, z3.Select(sh0["$fstate"].t, fw0) == F_PENDING, z3.Select(s.sh["$fstate"].t, fw0) == F_CANCELLED, s.sh["_must_cancel"].t == sh0["_must_cancel"].t),
+                                                          s.sh["_must_cancel"].t))), P)
+        ip.require(s, "cancel:touches-no-future-but-the-one-the-task-waits-on,at-most-once;the-waiter-and-the-continuation-stay-registered", z3.And(z3.BoolVal(len(wc) <= 1 and all(z3.eq(w[1], fw0) for w in wc) and n_conts(s) == 0), s.sh["_fut_waiter"].t == fw0), P)
+        x = z3.Const("x!c", Ref)
+        ip.require(s, "cancel:every-other-future-is-left-alone", z3.ForAll([x], z3.Implies(x != fw0, z3.Select(s.sh["$fstate"].t, x) == z3.Select(sh0["$fstate"].t, x))), P)
+
+    # ================= uncancel() / cancelling() =====================================================================
+    st = th.initial()
+    sh0 = dict(st.sh)
+    for s, v in run(st, "uncancel", {}):
+        n0 = sh0["_num_cancels_requested"].t
+        ip.require(s, "uncancel:one-request-less(never-below-zero),returned;nothing-else-changes(a-pending-_must_cancel-is-not-withdrawn)",
+                   z3.And(s.sh["_num_cancels_requested"].t == z3.If(n0 > 0, n0 - 1, n0), v.t == s.sh["_num_cancels_requested"].t if isinstance(v, IntV) else z3.BoolVal(False), s.sh["_must_cancel"].t == sh0["_must_cancel"].t, s.sh["_state"].t == sh0["_state"].t), P)
+
+    # ================= __wakeup(future): the done-callback registered on the awaited future ===========================
+    def c_step(ip_, s, fr, selfv, args):
+        s.trace.append(("__step", args.get("exc")))
+        return [(s, NoneV())]
+
+    ip.contracts[Q + "__step"] = c_step
+    st = th.initial()
+    fut = fresh("awaited", Ref)
+    st.assume(z3.And(fut != NONE, z3.Select(st.sh["$fstate"].t, fut) != F_PENDING))  # a done-callback runs only after the future is done (Future unit)
+    for s, v in run(st, "__wakeup", {"future": RefV(fut)}):
+        steps = _events(s, "__step")
+        ip.require(s, "__wakeup:exactly-one-step", z3.BoolVal(len(steps) == 1 and not isinstance(v, Exit)), P)
+        if len(steps) != 1:
+            continue
+        e = steps[0][1]
+        if "future:finished-with-result" in s.tags:
+            ip.require(s, "__wakeup:T5:a-future-that-finished-normally-resumes-the-task-plainly(no-exception)", z3.BoolVal(isinstance(e, NoneV)), P)
+        elif "future:cancelled" in s.tags:
+            ip.require(s, "__wakeup:a-cancelled-future-resumes-the-task-with-a-CancelledError", z3.BoolVal(isinstance(e, ExcV) and e.cls == "CancelledError"), P)
+        else:
+            ip.require(s, "__wakeup:a-failed-future-resumes-the-task-with-exactly-the-future's-exception", z3.BoolVal(isinstance(e, ExcV) and e.cls == "UserExc"), P)
+    del ip.contracts[Q + "__step"]
+
+    # ================= __init__ (T1) ===================================================================================
+    for name_given in (False, True):
+        st = th.initial()
+        coro = fresh("given_coro", Ref)
+        st.assume(coro != NONE)
+        isc = z3.Select(arr_b("is_coroutine"), coro)
+        for k in ("_must_cancel", "_fut_waiter", "_num_cancels_requested", "_coro"):
+            pass
+        st.sh["_fut_waiter"] = RefV(fresh("uninit_waiter", Ref))
+        args = {"coro": RefV(coro), "loop": RefV(th.THE_LOOP), "name": StrV(fresh("given_name", sym.S)) if name_given else NoneV(), "context": NoneV(), "eager_start": BoolV(False)}
+        for s, v in run(st, "__init__", args):
+            T = f"__init__[name={'given' if name_given else 'None'}]:"
+            if isinstance(v, Exit) and v.kind == Exit.RAISE:
+                ip.require(s, T + "TypeError-exactly-when-the-argument-is-not-a-coroutine;nothing-scheduled", z3.And(z3.Not(isc), z3.BoolVal(v.val.cls == "TypeError" and n_conts(s) == 0 and not _events(s, "resume"))), P)
+                continue
+            cs = _events(s, "call_soon")
+            ip.require(s, T + "T1:the-new-task-is-pending,runs-nothing-now(the-coroutine-is-not-resumed),has-no-cancellation-request-and-no-waiter,and-exactly-one-first-step-is-scheduled",
+                       z3.And(isc, s.sh["_state"].t == F_PENDING, z3.Not(s.sh["_must_cancel"].t), s.sh["_fut_waiter"].t == NONE, s.sh["_num_cancels_requested"].t == 0, s.sh["_coro"].t == coro,
+                              z3.BoolVal(not _events(s, "resume") and len(cs) == 1 and cs[0][1] == "__step" and len(cs[0][2]) == 0 and not _events(s, "add_done_callback") and len(_events(s, "register")) == 1)), P)
+
+    # ================= who touches what ================================================================================
+    mc_writers, fw_writers = set(), set()
+    for m, fi in std.classes["Task"].methods.items():
+        for n in ast.walk(fi.node):
+            if isinstance(n, (ast.Assign, ast.AugAssign)):
+                for t in (n.targets if isinstance(n, ast.Assign) else [n.target]):
+                    if isinstance(t, ast.Attribute) and t.attr == "_must_cancel":
+                        mc_writers.add(m)
+                    if isinstance(t, ast.Attribute) and t.attr == "_fut_waiter":
+                        fw_writers.add(m)
+    ip.require(th.initial(), "callgraph:_must_cancel-is-written-only-by-__init__/cancel/__step/__step_run_and_handle_result", z3.BoolVal(mc_writers == {"__init__", "cancel", "__step", "__step_run_and_handle_result"}), P)
+    ip.require(th.initial(), "callgraph:_fut_waiter-is-written-only-by-__init__/__step/__step_run_and_handle_result", z3.BoolVal(fw_writers == {"__init__", "__step", "__step_run_and_handle_result"}), P)
+    # set_result / set_exception of a Task are refused (user code cannot complete the task's own future)
+    for m in ("set_result", "set_exception"):
+        body = std.classes["Task"].methods[m].node.body
+        ip.require(th.initial(), f"Task.{m}:always-raises-RuntimeError(user-code-cannot-complete-a-task)", z3.BoolVal(len(body) == 1 and isinstance(body[0], ast.Raise) and "RuntimeError" in ast.unparse(body[0])), P)
